@@ -95,7 +95,13 @@ def filtered_cases(tier):
         n = len(el[2])
         for k in range(1, n + 1):
             for drop in itertools.combinations(range(n), k):
-                yield ([("T", 2), el, ("T", 1)], list(drop))
+                yield ([("T", 2), el, ("T", 1)], [f"e1_{j}" for j in drop])
+        # two parallel elements of one challenge, the second one emptied as well
+        for k in range(0, n + 1):
+            for drop in itertools.combinations(range(n), k):
+                if tier == "quick" and 0 < k < n:
+                    continue
+                yield ([("T", 2), el, ("P", None, [1, 2], None), ("T", 1)], [f"e1_{j}" for j in drop] + ["e2_0", "e2_1"])
 
 
 def check_filtered(spec, drop, res):
@@ -106,7 +112,7 @@ def check_filtered(spec, drop, res):
     ch = track.Challenge("c", default=True, schedule=schedule)
     trk = track.Track(name="t", challenges=[ch])
     cfg = config.Config()
-    cfg.add(config.Scope.application, "track", "exclude.tasks", [f"e1_{j}" for j in drop])
+    cfg.add(config.Scope.application, "track", "exclude.tasks", list(drop))
     v = None
     try:
         loader.TaskFilterTrackProcessor(cfg).on_after_load_track(trk)
@@ -114,7 +120,7 @@ def check_filtered(spec, drop, res):
         v = ("filter-raises", f"{type(e).__name__}: {e}")
     if v is None:
         left = [[t.name for t in el] for el in ch.schedule]
-        want = [["e0"], [f"e1_{j}" for j in range(len(spec[1][2])) if j not in drop], ["e2"]]
+        want = [[n for n in ([f"e{k}"] if el[0] == "T" else [f"e{k}_{j}" for j in range(len(el[2]))]) if n not in drop] for k, el in enumerate(spec)]
         want = [w for w in want if w]
         if left != want:
             v = ("filter-result", f"filters left {left}, expected {want}")
@@ -133,8 +139,8 @@ def check_filtered(spec, drop, res):
     )
     if v:
         res.violation(
-            f"allocator:{v[0]}:after-filter" + (":element-emptied" if len(drop) == len(spec[1][2]) else ""),
-            f"schedule {spec} with sub-tasks {drop} of the parallel element excluded: {v[1]}",
+            f"allocator:{v[0]}:after-filter" + (":element-emptied" if any(el[0] == "P" and all(f"e{k}_{j}" in drop for j in range(len(el[2]))) for k, el in enumerate(spec)) else ""),
+            f"schedule {spec} with tasks {drop} excluded: {v[1]}",
             {"kind": "filtered", "spec": spec, "drop": drop},
         )
 
@@ -226,7 +232,7 @@ def replay(data):
     res = Result()
     if data["kind"] == "filtered":
         spec = [tuple(e) if e[0] == "T" else (e[0], e[1], list(e[2]), e[3]) for e in data["spec"]]
-        check_filtered(spec, list(data["drop"]), res)
+        check_filtered(spec, [d if isinstance(d, str) else f"e1_{d}" for d in data["drop"]], res)
     elif data["kind"] == "schedule":
         spec = [tuple(e) if e[0] == "T" else (e[0], e[1], list(e[2]), e[3]) for e in data["spec"]]
         check_schedule(spec, res)
